@@ -9,11 +9,11 @@ import WowSrp.Gen.Constants
 namespace WowSrp
 
 def expected_structuralTbc : List String := ["Default for ProofSeed @src/tbc_header/mod.rs",
-  "DecrypterHalf @src/tbc_header/decrypt.rs: Clone Ord PartialOrd Eq PartialEq Hash",
-  "EncrypterHalf @src/tbc_header/encrypt.rs: Clone Ord PartialOrd Eq PartialEq Hash",
-  "HeaderCrypto @src/tbc_header/mod.rs: Clone Ord PartialOrd Eq PartialEq Hash",
-  "ProofSeed @src/tbc_header/mod.rs: Clone Copy Ord PartialOrd Eq PartialEq Hash"]
+  "DecrypterHalf @src/tbc_header/decrypt.rs: Clone Ord PartialOrd Eq PartialEq Hash | key index u8 previous_value u8",
+  "EncrypterHalf @src/tbc_header/encrypt.rs: Clone Ord PartialOrd Eq PartialEq Hash | key index u8 previous_value u8",
+  "HeaderCrypto @src/tbc_header/mod.rs: Clone Ord PartialOrd Eq PartialEq Hash | decrypt DecrypterHalf encrypt EncrypterHalf",
+  "ProofSeed @src/tbc_header/mod.rs: Clone Copy Ord PartialOrd Eq PartialEq Hash | seed u32"]
 
-theorem structuralTbc_ok : Gen.structuralTbc = expected_structuralTbc := by decide
+theorem structuralTbc_ok : Gen.structuralTbc = expected_structuralTbc := by decide +kernel
 
 end WowSrp
